@@ -46,6 +46,17 @@ CHECKS['C19'] = dict(
          'call (observation, successor state, P-layer) by the trace specifications.',
     design_ref='4 (C19)', technique='TLA+/TLC model checking + history replay (BFS + simulation) + trace validation',
     note=_NOTE)
+CHECKS['C15'] = dict(
+    text='Ccg.tla: TLC proves that the shift loop with its shrinking mask (transcribed step by step) '
+         'yields exactly the brute-force pair counts, that symmetrisation has the stated shape and '
+         'symmetry, and that the loop terminates, for every non-decreasing train up to the length '
+         'bound on a small time grid (identical times included) x every labeling over caller-ordered '
+         'id lists with unused ids x bins x half-windows; every terminal state (~88k quick) is '
+         'replayed on the real correlograms()/firing_rate() with outputs and loop-iteration count '
+         'compared; random longer trains are validated by running the machine and the brute-force '
+         'P-layer on the logged outputs.',
+    design_ref='4 (C15)', technique='TLA+/TLC model checking + exhaustive spec-to-code replay + trace validation',
+    note=_NOTE + ' Sample rates are powers of two so that time*rate is exact.')
 
 NOT_APPLICABLE = {}
 for e in ENGINES:
